@@ -88,6 +88,11 @@ impl Socket {
 
 // ---- R-lock: std::sync::Mutex stand-in; the value behind it is arbitrary at every lock (another task may have changed it)
 pub struct Mutex<T> { t: T }
+impl<T> Mutex<T> {
+    // std::sync::Mutex::new: the value behind the lock is arbitrary at every later lock, so nothing is stated
+    #[verifier::external_body]
+    pub fn new(t: T) -> Mutex<T> { unimplemented!() }
+}
 impl Mutex<RoutingTable> {
     #[verifier::external_body]
     pub fn lock(&self) -> (r: Result<&mut RoutingTable, ()>) ensures r is Ok { unimplemented!() }
@@ -125,6 +130,9 @@ impl<'a> vstd::std_specs::iter::IteratorSpecImpl for ClosestNodes<'a> {
 }
 pub struct RoutingTable { pub node_id: NodeId, pub routers: HashSet<SocketAddr> }
 impl RoutingTable {
+    /// RoutingTable::new (contract of the real function: unit `routing`); the handler only ever sees the table behind its lock
+    #[verifier::external_body]
+    pub fn new(node_id: NodeId) -> RoutingTable { unimplemented!() }
     #[verifier::external_body]
     pub fn find_node_mut<'a>(&'a mut self, node: &'_ NodeHandle, Tracked(tr): Tracked<&mut Trace>) -> (r: Option<&'a mut Node>)
         ensures final(tr).ev == old(tr).ev.push(Ev::TableFind(*node, r is Some)), r is Some ==> r->0.handle == *node
@@ -174,6 +182,11 @@ pub struct Timeout { pub deadline: TokioInstant, pub id: u64 }
 pub struct Timer<T> { pub next_id: u64, pub pending: Ghost<Map<Timeout, T>> }
 impl<T> Timer<T> {
     pub open spec fn wf(&self) -> bool { forall|k: Timeout| #[trigger] self.pending@.contains_key(k) ==> k.id < self.next_id }
+    /// proved in unit `timer` for the real Timer::new: nothing is pending, ids start at 0
+    #[verifier::external_body]
+    pub fn new() -> (r: Self)
+        ensures r.wf(), r.pending@ == Map::<Timeout, T>::empty(), r.next_id == 0,
+    { unimplemented!() }
     #[verifier::external_body]
     pub fn schedule_in(&mut self, deadline: Duration, value: T) -> (key: Timeout)
         requires old(self).wf()
